@@ -1,11 +1,11 @@
 """A-OS: get_readable_fileobj(name) yields a handle on the (ghost) file content, transparently decompressing gzip"""
 import vprim
+from externals.os_model import files
 
 
 class _Handle:
     def __init__(self, content):
         self._content = content
-        self._pos = 0
 
     def read(self, n=None):
         if n is None:
@@ -13,13 +13,8 @@ class _Handle:
         return self._content[:n]
 
     def readline(self):
-        idx = self._content.find('\n')
-        if idx == -1:
-            line = self._content
-            self._content = ''
-        else:
-            line = self._content[:idx + 1]
-            self._content = self._content[idx + 1:]
+        line, rest = vprim.split_first_line(self._content)
+        self._content = rest
         return line
 
     def tell(self):
@@ -30,18 +25,21 @@ class _Handle:
 
 
 class _CM:
-    def __init__(self, name, kwargs):
+    def __init__(self, name):
         self.name = name
 
     def __enter__(self):
-        fs = vprim.ghost().get('files', None)
-        if fs is None or self.name not in fs:
+        fs = files()
+        if self.name not in fs:
             raise FileNotFoundError(self.name)
-        return _Handle(fs[self.name])
+        c = fs[self.name]['content']
+        if not vprim.is_text(c):
+            return _Handle(vprim.uf_text('binary', c))       # a binary (FITS) file: bytes that are no region text
+        return _Handle(c)
 
     def __exit__(self, *args):
         return False
 
 
 def get_readable_fileobj(name_or_obj, encoding=None, cache=False, **kwargs):
-    return _CM(name_or_obj, kwargs)
+    return _CM(name_or_obj)
